@@ -228,9 +228,9 @@ Qed.
 
 Ltac all_idx := apply forallb_forall; let i := fresh "i" in let H := fresh "Hi" in intros i H; apply in_idx in H.
 
-Theorem spec_ok_model : forall c, kf c = 0 -> spec_ok c (model_obs c) = true.
+Theorem spec_base_model : forall c, kf c = 0 -> spec_base c (model_obs c) = true.
 Proof.
-  intros c Hk. unfold spec_ok, model_obs. cbn [o_eq o_hash o_lt o_sort]. rewrite Hk. cbn [N.eqb].
+  intros c Hk. unfold spec_base, model_obs. cbn [o_eq o_hash o_lt o_sort]. rewrite Hk. cbn [N.eqb].
   set (ts := c_terms c).
   rewrite !shape_matrix, map_length, Nat.eqb_refl. cbn [andb].
   rewrite andb_true_r.
@@ -254,6 +254,215 @@ Proof.
   - all_idx. all_idx.
     rewrite (nthd_matrix (fun a b => cmp_of (term_lt a b)) ts i i0 None (IRI [])) by assumption.
     apply lt_entry_model.
+Qed.
+
+(* ------------------------------------------------------------------ *)
+(* < inside one datatype family: on the modelled literals it is a strict order *)
+
+Lemma str_ltb_neg : forall a b, negb (str_ltb b a) && negb (str_eqb a b) = str_ltb a b.
+Proof.
+  intros a b. destruct (str_ltb_total a b) as [H|[H|H]].
+  - rewrite H, (str_ltb_asym _ _ H). destruct (str_eqb a b) eqn:E; auto.
+    apply str_eqb_eq in E. subst. rewrite str_ltb_irrefl in H. discriminate.
+  - subst. rewrite str_ltb_irrefl, str_eqb_refl. reflexivity.
+  - rewrite H, (str_ltb_asym _ _ H). reflexivity.
+Qed.
+
+Lemma str_ltb_neg_ne : forall a b, str_eqb a b = false -> negb (str_ltb b a) = str_ltb a b.
+Proof. intros a b H. rewrite <- (str_ltb_neg a b), H. simpl. rewrite andb_true_r. reflexivity. Qed.
+
+Definition olang_ltb (a b : option str) : bool :=
+  match a, b with
+  | None, Some _ => true
+  | Some x, Some y => str_ltb x y
+  | _, _ => false
+  end.
+Definition skey_ltb (l : option str) (lex : str) (l' : option str) (lex' : str) : bool :=
+  olang_ltb l l' || (ostr_eqb l l' && str_ltb lex lex').
+
+(* the order the model computes for two literals of one family *)
+Definition mlt (a b : term) : bool :=
+  match a, b with
+  | Lit lex dt lang, Lit lex' dt' lang' =>
+      match lit_class lex dt lang, lit_class lex' dt' lang' with
+      | CInt x, CInt y => Z.ltb x y
+      | CStr, CStr => skey_ltb lang lex lang' lex'
+      | _, _ => false
+      end
+  | _, _ => false
+  end.
+
+Lemma string_not_integer : str_eqb xsd_string xsd_integer = false.
+Proof. vm_compute. reflexivity. Qed.
+
+Lemma class_str_dt : forall lex dt lang, lit_class lex dt lang = CStr -> dt = None \/ dt = Some xsd_string.
+Proof.
+  intros lex dt lang H. unfold lit_class in H.
+  destruct dt as [d|]; auto. right.
+  assert (str_eqb d xsd_string = true) as E.
+  { destruct lang as [[|]|]; try discriminate;
+      destruct (str_eqb d xsd_string); auto; destruct (str_eqb d xsd_integer); try discriminate;
+      destruct (parse_int lex); discriminate. }
+  apply str_eqb_eq in E. subst. reflexivity.
+Qed.
+
+Lemma class_int_dt : forall lex dt lang z, lit_class lex dt lang = CInt z -> dt = Some xsd_integer.
+Proof.
+  intros lex dt lang z H. unfold lit_class in H.
+  destruct dt as [d|]; [|destruct lang as [[|]|]; discriminate].
+  assert (str_eqb d xsd_integer = true) as E.
+  { destruct lang as [[|]|]; try discriminate;
+      destruct (str_eqb d xsd_string); try discriminate; destruct (str_eqb d xsd_integer); auto; discriminate. }
+  apply str_eqb_eq in E. subst. reflexivity.
+Qed.
+
+Lemma class_str_lang : forall lex dt lang, lit_class lex dt lang = CStr -> lang <> Some [].
+Proof. intros lex dt lang H E. subst. discriminate. Qed.
+
+Lemma lower_nil : forall s, lower s = [] -> s = [].
+Proof. destruct s; simpl; auto; discriminate. Qed.
+
+Lemma same_family_dt : forall a b, same_family a b = true -> same_dt a b = true.
+Proof. intros a b H. unfold same_family in H. apply andb_true_iff in H as [H _]. apply andb_true_iff in H as [H _]. exact H. Qed.
+
+Lemma same_family_sym : forall a b, same_family a b = true -> same_family b a = true.
+Proof.
+  intros a b H. unfold same_family in *. apply andb_true_iff in H as [H P2]. apply andb_true_iff in H as [H P1].
+  rewrite P1, P2, !andb_true_r. destruct a, b; try discriminate. cbn [same_dt] in *.
+  apply ostr_eqb_eq in H. subst. apply ostr_eqb_refl.
+Qed.
+
+Lemma fam_is_lt : forall a b, same_dt a b = true -> case_variant a b = false ->
+  is_lt (cmp_of (term_lt a b)) = mlt a b.
+Proof.
+  intros a b F V.
+  destruct a as [s|s|s|lex dt lang], b as [s'|s'|s'|lex' dt' lang']; try discriminate.
+  cbn [same_dt] in F. apply ostr_eqb_eq in F. subst dt'.
+  cbn [term_lt mlt]. unfold lit_gt, lit_eqv.
+  destruct (lit_class lex dt lang) as [|x|] eqn:C1; destruct (lit_class lex' dt lang') as [|y|] eqn:C2;
+    try reflexivity.
+  - (* two strings *)
+    rewrite str_eqb_refl. cbn [negb]. cbv iota.
+    pose proof (class_str_lang _ _ _ C1) as N1. pose proof (class_str_lang _ _ _ C2) as N2.
+    unfold skey_ltb.
+    destruct lang as [l|], lang' as [l'|]; cbn [ostr_eqb olang_ltb lang_or_empty negb andb orb].
+    + cbn [case_variant] in V. destruct (str_eqb l l') eqn:E.
+      * apply str_eqb_eq in E. subst l'. rewrite str_eqb_refl, str_ltb_irrefl. cbn [negb orb andb].
+        cbn [cmp_of]. rewrite <- (str_ltb_neg lex lex').
+        destruct (negb (str_ltb lex' lex) && negb (str_eqb lex lex')); reflexivity.
+      * cbn [negb andb] in V. rewrite V. cbn [negb andb orb]. rewrite andb_true_r, orb_false_r.
+        rewrite <- (str_ltb_neg_ne l l' E). destruct (negb (str_ltb l' l)); reflexivity.
+    + destruct (negb (str_eqb (lower l) (lower []))); reflexivity.
+    + assert (str_eqb (lower []) (lower l') = false) as E.
+      { destruct (str_eqb (lower []) (lower l')) eqn:E; auto. apply str_eqb_eq in E. simpl in E.
+        symmetry in E. apply lower_nil in E. subst l'. exfalso. apply N2. reflexivity. }
+      rewrite E. reflexivity.
+    + cbn [lower map str_eqb negb]. rewrite <- (str_ltb_neg lex lex').
+      destruct (negb (str_ltb lex' lex) && negb (str_eqb lex lex')); reflexivity.
+  - (* a string and an integer cannot share a datatype *)
+    exfalso. apply class_int_dt in C2. destruct (class_str_dt _ _ _ C1) as [E|E]; subst; try discriminate.
+  - exfalso. apply class_int_dt in C1. destruct (class_str_dt _ _ _ C2) as [E|E]; subst; try discriminate.
+  - (* two integers *)
+    cbn [cmp_of]. replace (negb (x >? y)%Z && negb (x =? y)%Z) with (x <? y)%Z.
+    + destruct (x <? y)%Z; reflexivity.
+    + rewrite Z.gtb_ltb. destruct (Z.ltb_spec x y), (Z.ltb_spec y x), (Z.eqb_spec x y); simpl; auto; lia.
+Qed.
+
+Lemma olang_ltb_irrefl : forall a, olang_ltb a a = false.
+Proof. destruct a; simpl; auto using str_ltb_irrefl. Qed.
+
+Lemma olang_ltb_trans : forall a b c, olang_ltb a b = true -> olang_ltb b c = true -> olang_ltb a c = true.
+Proof. destruct a, b, c; simpl; intros; try discriminate; eauto using str_ltb_trans. Qed.
+
+Lemma skey_ltb_trans : forall l1 x1 l2 x2 l3 x3,
+  skey_ltb l1 x1 l2 x2 = true -> skey_ltb l2 x2 l3 x3 = true -> skey_ltb l1 x1 l3 x3 = true.
+Proof.
+  unfold skey_ltb. intros l1 x1 l2 x2 l3 x3 H1 H2.
+  apply orb_true_iff in H1. apply orb_true_iff in H2. apply orb_true_iff.
+  destruct H1 as [H1|H1], H2 as [H2|H2].
+  - left. eauto using olang_ltb_trans.
+  - apply andb_true_iff in H2 as [E _]. apply ostr_eqb_eq in E. subst. auto.
+  - apply andb_true_iff in H1 as [E _]. apply ostr_eqb_eq in E. subst. auto.
+  - apply andb_true_iff in H1 as [E1 A]. apply andb_true_iff in H2 as [E2 B].
+    apply ostr_eqb_eq in E1, E2. subst. right. rewrite ostr_eqb_refl. simpl. eauto using str_ltb_trans.
+Qed.
+
+Lemma skey_ltb_irrefl : forall l x, skey_ltb l x l x = false.
+Proof. intros. unfold skey_ltb. rewrite olang_ltb_irrefl, str_ltb_irrefl, andb_false_r. reflexivity. Qed.
+
+Lemma mlt_trans : forall a b c, mlt a b = true -> mlt b c = true -> mlt a c = true.
+Proof.
+  intros a b c H1 H2.
+  destruct a as [s|s|s|lex dt lang], b as [s'|s'|s'|lex' dt' lang'], c as [s''|s''|s''|lex'' dt'' lang'']; try discriminate.
+  cbn [mlt] in *.
+  destruct (lit_class lex dt lang), (lit_class lex' dt' lang'), (lit_class lex'' dt'' lang''); try discriminate.
+  - eauto using skey_ltb_trans.
+  - apply Z.ltb_lt in H1, H2. apply Z.ltb_lt. lia.
+Qed.
+
+Lemma mlt_irrefl : forall a, mlt a a = false.
+Proof.
+  destruct a as [s|s|s|lex dt lang]; auto. cbn [mlt].
+  destruct (lit_class lex dt lang); auto using skey_ltb_irrefl, Z.ltb_irrefl.
+Qed.
+
+Lemma mlt_asym : forall a b, mlt a b && mlt b a = false.
+Proof.
+  intros a b. destruct (mlt a b) eqn:E1; auto. destruct (mlt b a) eqn:E2; auto.
+  pose proof (mlt_trans _ _ _ E1 E2) as X. rewrite mlt_irrefl in X. discriminate.
+Qed.
+
+Lemma same_family_trans : forall a b c, same_family a b = true -> same_family b c = true -> same_family a c = true.
+Proof.
+  intros a b c H1 H2. unfold same_family in *.
+  apply andb_true_iff in H1 as [H1 Pb]. apply andb_true_iff in H1 as [H1 Pa].
+  apply andb_true_iff in H2 as [H2 Pc]. apply andb_true_iff in H2 as [H2 _].
+  rewrite Pa, Pc, !andb_true_r. destruct a, b, c; try discriminate. cbn [same_dt] in *.
+  apply ostr_eqb_eq in H1, H2. subst. apply ostr_eqb_refl.
+Qed.
+
+Lemma kf_zero : forall c, kf c = 0 ->
+  forall a b, In a (c_terms c) -> In b (c_terms c) -> case_variant a b = false.
+Proof.
+  intros c H a b Ha Hb. unfold kf in H.
+  destruct (existsb decimal_nan (c_terms c)); try discriminate.
+  destruct (1 <? N.of_nat (length (filter ym_duration (c_terms c)))); try discriminate.
+  destruct (existsb (fun a0 => existsb (case_variant a0) (c_terms c)) (c_terms c)) eqn:E; try discriminate.
+  destruct (case_variant a b) eqn:V; auto.
+  assert (existsb (fun a0 => existsb (case_variant a0) (c_terms c)) (c_terms c) = true) as X; [|congruence].
+  apply existsb_exists. exists a. split; auto. apply existsb_exists. exists b. auto.
+Qed.
+
+Lemma family_ok_model : forall c, kf c = 0 ->
+  family_ok (c_terms c) (map (fun a => map (fun b => cmp_of (term_lt a b)) (c_terms c)) (c_terms c)) = true.
+Proof.
+  intros c Hk. pose proof (kf_zero c Hk) as NV. set (ts := c_terms c) in *.
+  assert (forall i, (i < length ts)%nat -> In (nth i ts (IRI [])) ts) as IN by (intros; apply nth_In; assumption).
+  unfold family_ok. apply andb_true_iff. split.
+  - all_idx. all_idx.
+    rewrite (nthd_matrix (fun a b => cmp_of (term_lt a b)) ts i i0 None (IRI [])),
+            (nthd_matrix (fun a b => cmp_of (term_lt a b)) ts i0 i None (IRI [])) by assumption.
+    destruct (same_family (nth i ts (IRI [])) (nth i0 ts (IRI []))) eqn:F; auto. cbn [implb].
+    pose proof (same_family_sym _ _ F) as F'.
+    rewrite (fam_is_lt _ _ (same_family_dt _ _ F)) by auto. rewrite (fam_is_lt _ _ (same_family_dt _ _ F')) by auto.
+    rewrite mlt_asym. reflexivity.
+  - all_idx. all_idx. all_idx.
+    rewrite (nthd_matrix (fun a b => cmp_of (term_lt a b)) ts i i0 None (IRI [])),
+            (nthd_matrix (fun a b => cmp_of (term_lt a b)) ts i0 i1 None (IRI [])),
+            (nthd_matrix (fun a b => cmp_of (term_lt a b)) ts i i1 None (IRI [])) by assumption.
+    destruct (same_family (nth i ts (IRI [])) (nth i0 ts (IRI []))) eqn:F1; auto.
+    destruct (same_family (nth i0 ts (IRI [])) (nth i1 ts (IRI []))) eqn:F2; auto. cbn [andb implb].
+    pose proof (same_family_trans _ _ _ F1 F2) as F3.
+    rewrite (fam_is_lt _ _ (same_family_dt _ _ F1)), (fam_is_lt _ _ (same_family_dt _ _ F2)), (fam_is_lt _ _ (same_family_dt _ _ F3)) by auto.
+    destruct (mlt (nth i ts (IRI [])) (nth i0 ts (IRI []))) eqn:M1; auto.
+    destruct (mlt (nth i0 ts (IRI [])) (nth i1 ts (IRI []))) eqn:M2; auto.
+    rewrite (mlt_trans _ _ _ M1 M2). reflexivity.
+Qed.
+
+Theorem spec_ok_model : forall c, kf c = 0 -> spec_ok c (model_obs c) = true.
+Proof.
+  intros c Hk. unfold spec_ok. rewrite (spec_base_model c Hk). cbn [andb].
+  unfold model_obs. cbn [o_lt]. apply family_ok_model. exact Hk.
 Qed.
 
 (* ------------------------------------------------------------------ *)
@@ -576,7 +785,7 @@ Lemma spec_ok_reads : forall c o, spec_ok c o = true ->
     (* the order between kinds and inside a kind is the required one; two literals never raise *)
     /\ lt_entry_ok a b (nthd (o_lt o) i j None) = true.
 Proof.
-  intros c o H ts i j Hi Hj a b. unfold spec_ok in H. fold ts in H.
+  intros c o H ts i j Hi Hj a b. unfold spec_ok in H. apply andb_true_iff in H as [H _]. unfold spec_base in H. fold ts in H.
   repeat (apply andb_true_iff in H as [H ?]).
   repeat split.
   - pose proof (forallb_idx ts _ H6 i Hi) as X. cbv beta in X.
@@ -604,4 +813,28 @@ Proof.
   - intro E. rewrite E in H2. destruct (t_term c); try discriminate. exists s. split; auto.
     apply negb_true_iff in H2. exact H2.
   - intro Hin. rewrite forallb_forall in H3. specialize (H3 _ Hin). discriminate.
+Qed.
+
+(* the family clauses of the checker, read as propositions *)
+Lemma spec_ok_family_reads : forall c o, spec_ok c o = true ->
+  let ts := c_terms c in
+  let t := fun i => nth i ts (IRI []) in
+  let lt := fun i j => nthd (o_lt o) i j None = Some CLt in
+  forall i j k, (i < length ts)%nat -> (j < length ts)%nat -> (k < length ts)%nat ->
+    same_family (t i) (t j) = true ->
+    ~ (lt i j /\ lt j i)
+    /\ (same_family (t j) (t k) = true -> lt i j -> lt j k -> lt i k).
+Proof.
+  intros c o H ts t lt i j k Hi Hj Hk F. unfold spec_ok in H. apply andb_true_iff in H as [_ H].
+  unfold family_ok in H. fold ts in H. apply andb_true_iff in H as [H1 H2]. unfold lt. split.
+  - intros [A B].
+    pose proof (forallb_idx ts _ H1 i Hi) as X. cbv beta in X.
+    pose proof (forallb_idx ts _ X j Hj) as Y. cbv beta in Y.
+    fold (t i) (t j) in Y. rewrite F, A, B in Y. discriminate.
+  - intros F2 A B.
+    pose proof (forallb_idx ts _ H2 i Hi) as X. cbv beta in X.
+    pose proof (forallb_idx ts _ X j Hj) as Y. cbv beta in Y.
+    pose proof (forallb_idx ts _ Y k Hk) as Z. cbv beta in Z.
+    fold (t i) (t j) (t k) in Z. rewrite F, F2, A, B in Z. cbn in Z.
+    destruct (nthd (o_lt o) i k None) as [[| |]|]; try discriminate. reflexivity.
 Qed.
